@@ -394,11 +394,13 @@ class Run:
             if not sv: return
             i = s["c"] % len(sv)
             target, tname = sv[i][0], str(i)
-        if target in self.lay.waiting_for_establishment:
+        if target in self.lay.waiting_for_establishment or any(c.connection is target for c in self.w.deferred_connects):
             return      # an addon has no handle on a connection that is still being established (see level_note)
         was_open = target.state is ConnectionState.OPEN
         if s["f"] == "addr":
             new = None if s["v"] is None else (HOSTS[s["v"][0]], PORTS[s["v"][1]])
+            if new is None and tname == "ctx" and self.case["mode"].startswith("reverse"):
+                return      # transparent-mode streams assert that context.server has an address: not a pool matter
             old = target.address
             self.model_lines.append(f"poke {tname} addr " + ("- -" if new is None else f"{s['v'][0]} {s['v'][1]}"))
             try: target.address = new; raised = False
